@@ -11,6 +11,7 @@ import Hpl.Spec.Canonical
 import Hpl.Spec.Eval
 import Hpl.Spec.Shapes
 import Hpl.Spec.Clash
+import Hpl.Spec.InferTyping
 import Hpl.Model.Rewrite.Split
 import Hpl.Model.Rewrite.Refactor
 import Hpl.Model.Rewrite.Simplify
@@ -73,6 +74,14 @@ def handle (req : Sexp) : Sexp :=
     match ty.natOf, decTime lo, decTime hi with
     | some ty, some lo, some hi => encM (fun _ => []) (mkRanged ty lo hi)
     | _, _, _ => errS "protocol" "mkranged"
+  | .list [.atom "wtunder", this, vars, r] =>
+    -- does the term satisfy the hypothesis of C04 `build_complete` under the typing its schema induces?
+    -- answer: (ok <wellTypedB> <root is boolean> <table single-valued>)
+    match decTok this, decVarTypes vars, decRaw r with
+    | some this, some vars, some r =>
+      let ρ := inducedTyping this vars r
+      okS [Sexp.ofBool (wellTypedB ρ r), Sexp.ofBool (ctype ρ r == T.BOOL), Sexp.ofBool (singleValued (collectTyping this vars [] r))]
+    | _, _, _ => errS "protocol" "wtunder"
   | .list [.atom "clash", r] =>
     -- does the definite-clash detector (Spec/Clash; sound for `build` by Props/C05) flag this raw term?
     match decRaw r with
